@@ -137,6 +137,52 @@ def ueSequence (x : List α) (cover : Option (List α)) (normalize : Bool) (nu :
     else .ok ⟨true, rows.map (fun row => row.map (fun v => v / nu)), cover⟩
   else .ok ⟨false, rows, cover⟩
 
+/-! ## One cell: a root sequence object shared by the users built from it
+
+`SrsUeSequence(root, n_cs, normalize)` / `DmrsUeSequence(root, n_cs, cover_code, normalize)`
+read `root.seq_array()` and build **new** arrays: the root object and the users
+built earlier are not touched, whatever the order of the constructions; a
+rejected construction (`assert abs(n_cs) < denominator`) leaves everything as
+it was. -/
+
+/-- arguments of one user construction (`norm` = `np.linalg.norm`, external kernel) -/
+structure UeSpec (α : Type) where
+  D : Nat
+  ncs : Nat
+  normalize : Bool
+  cover : Option (List α)
+
+/-- the user built from a root (what a construction returns) -/
+def buildUe (norm : List α → α) (root : RootSeq) (sp : UeSpec α) : Except PyErr (UeSeq α) :=
+  match shiftedPhases root.seqArray sp.ncs sp.D with
+  | .error e => .error e
+  | .ok ph =>
+    let x : List α := seqValues ph
+    let row0 : List α := match sp.cover with
+      | none => x
+      | some [] => []
+      | some (c :: _) => x.map (fun v => v * c)
+    ueSequence x sp.cover sp.normalize (norm row0)
+
+/-- observable state of a cell: the shared root object and every user built so far -/
+structure Cell (α : Type) where
+  root : RootSeq
+  users : List (UeSeq α)
+
+/-- one construction on the shared root -/
+def Cell.addUser (norm : List α → α) (c : Cell α) (sp : UeSpec α) : Cell α × Option PyErr :=
+  match buildUe norm c.root sp with
+  | .ok ue => (⟨c.root, c.users ++ [ue]⟩, none)
+  | .error e => (c, some e)
+
+/-- a history of constructions -/
+def Cell.run (norm : List α → α) : Cell α → List (UeSpec α) → Cell α × List (Option PyErr)
+  | c, [] => (c, [])
+  | c, sp :: rest =>
+    let (c1, st) := c.addUser norm sp
+    let (c2, sts) := Cell.run norm c1 rest
+    (c2, st :: sts)
+
 /-- `Σ_n x[n]·w(n)` -/
 def dot (x : List α) (w : Nat → α) : α := (x.zipIdx.map (fun p => p.1 * w p.2)).sum
 
